@@ -33,7 +33,7 @@ RULE = ('regex correspondence: per translated pattern, strings sampled from the 
         'built from the pattern\'s own class boundaries; unit: drop_leading_zeros / extractors / score_guid on IP- and '
         'GUID-shaped strings with ellipsis boundary contexts; pipeline: boundary octets {0,9,10,99,100,199,200,249,250,255}^4 '
         'exhaustively, seeded IPv4 (leading-zero variants), seeded IPv6 exploded and compressed at every position, near '
-        'misses (octet 256-999, 5 groups, 9 hextets, ":::"), GUIDs x 4 layouts, alone and in carrier sentences; '
+        'misses (octet 256-999, 5 groups, 9 hextets, ":::", every split a::b with a + b in {8, 9}, 5-digit hextets at each position), every valid split a::b alone and in a carrier, GUIDs x 4 layouts, alone and in carrier sentences; '
         'non-trivial = distinct query with at least one entity')
 ASSUMPTIONS = ['`regex` module tables for \\d \\w \\s exported by brute force from the running module (RTV/Gen/Regexes.lean)',
                '`finditer` is modelled as leftmost start / first end in backtracking priority order (validated by the regex correspondence)',
@@ -107,6 +107,41 @@ def v6_forms(groups, r):
             if all(v == 0 for v in groups[a:b]):
                 forms.append(':'.join(g(v) for v in groups[:a]) + '::' + ':'.join(g(v) for v in groups[b:]))
     return forms
+
+
+HEX_POOL = ['0', '1', 'a', 'f', '1a', 'ff', 'db8', '370', '2001', '8a2e', 'FFFF', '0001', 'AbC']
+
+
+def v6_split(a, b, r):
+    """`h1:…:ha::h1:…:hb` (a, b >= 0; leading / trailing `::` when a or b is 0)"""
+    return ':'.join(r.choice(HEX_POOL) for _ in range(a)) + '::' + ':'.join(r.choice(HEX_POOL) for _ in range(b))
+
+
+def v6_systematic(r, reps=1):
+    """-> [(text, family)]: every valid split a + b <= 7 and the full form ('valid'); every split with a + b in {8, 9},
+    a 5-digit hextet at each position of an exploded / compressed address, 9 and 10 plain groups ('near')."""
+    out = []
+    for _ in range(reps):
+        for a in range(8):
+            for b in range(8 - a):
+                out.append((v6_split(a, b, r), 'valid'))
+        out.append((':'.join(r.choice(HEX_POOL) for _ in range(8)), 'valid'))
+        for tot in (8, 9):
+            for a in range(tot + 1):
+                out.append((v6_split(a, tot - a, r), 'near'))
+        for pos in range(8):
+            g = [r.choice(HEX_POOL) for _ in range(8)]
+            g[pos] = r.choice(['12345', 'fffff', '00001', 'abcde'])
+            out.append((':'.join(g), 'near'))
+        for a, b in ((1, 1), (2, 3), (0, 4), (5, 0), (3, 4), (1, 6)):
+            for pos in range(a + b):
+                t = v6_split(a, b, r).split(':')
+                idx = [k for k, x in enumerate(t) if x][pos]
+                t[idx] = r.choice(['12345', 'fffff', 'abcde'])
+                out.append((':'.join(t), 'near'))
+        for n in (9, 10):
+            out.append((':'.join(r.choice(HEX_POOL) for _ in range(n)), 'near'))
+    return out
 
 
 def gen_v6_groups(r):
@@ -295,6 +330,21 @@ def pipeline_ip(ctx, impl):
             if rs:
                 ctx.nontriv(('ip', q))
     ctx.count('pipeline-v6-forms', n)
+    # 3b. systematic IPv6 family: every split a::b (a + b <= 7 must be recognised with its exact span; a + b in {8, 9},
+    # 5-digit hextets, 9 / 10 groups are rejected by `ipaddress`, so they may never be reported as a whole)
+    fam = v6_systematic(r, reps=6 if ctx.thorough else 2)
+    for k, (t, kind) in enumerate(fam):
+        for car in ('{}', V6_CARRIERS[1 + k % (len(V6_CARRIERS) - 1)]):
+            q = car.format(t)
+            a = q.index(t)
+            rs = impl.ip(q)
+            if kind == 'valid':
+                check_ip_results(ctx, q, rs, (a, a + len(t), v6_value(t)), '-v6')
+            else:
+                check_ip_results(ctx, q, rs)
+            if rs:
+                ctx.nontriv(('ip', q))
+    ctx.count('pipeline-v6-systematic-splits', 2 * len(fam))
     # 4. near misses and noise: only soundness is demanded
     near = []
     for pos in range(4):
@@ -506,7 +556,32 @@ def search(ctx, proof_problems):
                        failing_input=fi, property_fails=True)
             if found >= 5:
                 break
-    # GUID / IPv6 class edits: boundary hex digits at every position, Lean matcher vs specification
+    # IPv6: the regenerated Ipv6Regex (Lean matcher) over every split a::b with a + b <= 9, 5-digit hextets, 9 / 10
+    # groups, against `ipaddress`; every disagreement is replayed on the implementation
+    r = ctx.rng('search-v6')
+    fam = v6_systematic(r, reps=3)
+    lines = ['re.find\tipv6Regex\treal\t' + cps(t) for t, _ in fam]
+    model = common.driver(lines)
+    ctx.count('search-lean-ipv6', len(lines))
+    found6 = 0
+    for (t, kind), m in zip(fam, model):
+        valid = v6_value(t) is not None
+        full = m == '0:%d' % len(t)
+        if full == valid:
+            continue
+        rs = impl.ip(t)
+        reported = any(x.start == 0 and x.end == len(t) - 1 for x in rs)
+        if reported != valid:
+            found6 += 1
+            ctx.report('property', 'ipv6-language-changed',
+                       'the regenerated Ipv6Regex %s %r (Lean matcher), and recognize_ip_address(%r) %s it' % (
+                           'matches the invalid address' if full else 'does not match the valid address', t, t,
+                           'reports' if reported else 'does not report'),
+                       failing_input={'op': 'recognize_ip_address', 'query': t, 'culture': CULTURE, 'lean_matcher_spans': m,
+                                      'reported': fmt_model_results(rs), 'valid': valid}, property_fails=True)
+            if found6 >= 5:
+                break
+    # GUID class edits: boundary hex digits at every position, Lean matcher vs specification
     base = '01234567-89ab-cdef-0123-456789abcdef'
     lines, meta = [], []
     for p, ch in enumerate(base):
